@@ -121,64 +121,56 @@ Ltac top_ifs := repeat match goal with |- _ _ (run_flat (if ?c then _ else _) _)
 Ltac neg_if := match goal with |- _ _ (run_flat (if ?c then _ else _) _) => destruct c; [exact I|] end.
 Ltac scalar_pg P := apply prog_bind; [auto with rb|apply P|intros; apply ret_prog0].
 
-(* ---------- interface{} ---------- *)
-Theorem dec_any_prog : forall fuel id s, (length s + 1 < fuel)%nat -> prog s (run_flat (dec_any fuel id) s).
-Proof.
-  induction fuel as [|f IH]; intros id s Hs; [lia|]. cbn [dec_any]. top_ifs.
-  - exact I.
-  - scalar_pg rd_i8_prog.
-  - scalar_pg rd_i16_prog.
-  - scalar_pg rd_i32_prog.
-  - scalar_pg rd_i64_prog.
-  - scalar_pg rd_i32_prog.
-  - scalar_pg rd_i64_prog.
-  - apply prog_bind; [auto with rb|apply rd_i32_prog|]. intros n r Hr. neg_if.
-    apply readfull_prog0. intros. apply ret_prog0.
-  - scalar_pg rd_string_prog.
-  - apply prog_bind; [auto with rb|apply rd_u8_prog|]. intros et r Hr.
-    apply prog0_bind; [auto with rb|apply prog_prog0, rd_i32_prog|]. intros n r' Hr'. neg_if.
-    apply prog0_bind; [auto with rb| |intros; apply ret_prog0].
-    apply rep_prog0 with (L := length r'); [auto with rb| |lia|lia]. intros s' Hs'. apply IH. lia.
-  - apply prog_bind; [auto with rb| |intros; apply ret_prog0].
-    apply comp_prog with (L := length s); [auto with rb|auto with rb|apply rd_tag_prog| |lia|lia].
-    intros id' s' Hs'. apply prog_prog0, IH. lia.
-  - apply prog_bind; [auto with rb|apply rd_i32_prog|]. intros n r Hr. neg_if.
-    apply prog0_bind; [auto with rb| |intros; apply ret_prog0].
-    apply rep_prog0 with (L := length r); [auto with rb| |lia|lia]. intros. apply rd_i32_prog.
-  - apply prog_bind; [auto with rb|apply rd_i32_prog|]. intros n r Hr. neg_if.
-    apply prog0_bind; [auto with rb| |intros; apply ret_prog0].
-    apply rep_prog0 with (L := length r); [auto with rb| |lia|lia]. intros. apply rd_i64_prog.
-  - exact I.
-Qed.
+(* goal-directed proof search for the consumption predicates: one rule per constructor of the decoders;
+   what is left are the recursive calls *)
+Ltac pg_leaf :=
+  first [ exact I | apply ret_prog0
+        | apply rd_u8_prog | apply rd_i8_prog | apply rd_i16_prog | apply rd_i32_prog | apply rd_i64_prog
+        | apply rd_string_prog | apply rd_tag_prog | apply rd_tag_dyn_prog
+        | apply prog_prog0; first [ apply rd_u8_prog | apply rd_i8_prog | apply rd_i16_prog | apply rd_i32_prog
+                                  | apply rd_i64_prog | apply rd_string_prog | apply rd_tag_prog ] ].
 
+Ltac pg :=
+  lazymatch goal with
+  | |- prog0 _ (run_flat (Ret _) _) => apply ret_prog0
+  | |- prog0 _ (run_flat (Fail _) _) => exact I
+  | |- prog _ (run_flat (Fail _) _) => exact I
+  | |- _ _ (run_flat (if ?c then _ else _) _) => destruct c; pg
+  | |- _ _ (run_flat (match ?x with _ => _ end) _) => destruct x; pg
+  | |- prog0 _ (run_flat (ReadFull _ _) _) => apply readfull_prog0; intros; pg
+  | |- prog _ (run_flat (ReadFull _ _) _) => apply readfull_prog; [lia | intros; cbv zeta; pg]
+  | |- prog0 ?s (run_flat (rep _ _ _ _) ?s) =>
+      apply rep_prog0 with (L := length s); [auto with rb | intros; pg | lia | lia]
+  | |- prog ?s (run_flat (comp_loop _ _ _ _ _) ?s) =>
+      apply comp_prog with (L := length s); [auto with rb | auto with rb | first [apply rd_tag_prog | apply rd_tag_dyn_prog] | intros; pg | lia | lia]
+  | |- prog0 ?s (run_flat (comp_loop _ _ _ _ _) ?s) => apply prog_prog0; pg
+  | |- prog0 _ (run_flat (bind _ _) _) => apply prog0_bind; [auto with rb | pg | intros; pg]
+  | |- prog _ (run_flat (bind _ _) _) => apply prog_bind; [auto with rb | pg | intros; pg]
+  | |- _ => first [ pg_leaf | idtac ]
+  end.
+
+(* ---------- interface{} ---------- *)
+Theorem dany_prog : forall fuel dep id s, (length s + 1 < fuel)%nat -> prog s (run_flat (dany fuel dep id) s).
+Proof.
+  induction fuel as [|f IH]; intros dep id s Hs; [lia|]. cbn [dany].
+  pg; first [apply IH; lia | apply prog_prog0, IH; lia].
+Qed.
+Theorem dec_any_prog : forall fuel id s, (length s + 1 < fuel)%nat -> prog s (run_flat (dec_any fuel id) s).
+Proof. intros. now apply dany_prog. Qed.
+
+Lemma dmap_prog fuel dep id s : (length s + 1 < fuel)%nat -> prog s (run_flat (dmap fuel dep id) s).
+Proof. intros H. unfold dmap. top_ifs; try exact I. apply dany_prog, H. Qed.
 Lemma dec_map_prog fuel id s : (length s + 1 < fuel)%nat -> prog0 s (run_flat (dec_map fuel id) s).
-Proof. intros H. unfold dec_map. top_ifs; try exact I. apply prog_prog0, dec_any_prog, H. Qed.
+Proof. intros H. apply prog_prog0, dmap_prog, H. Qed.
 
 (* ---------- rawRead ---------- *)
-Theorem dec_skip_prog : forall fuel id s, (length s + 1 < fuel)%nat -> prog s (run_flat (dec_skip fuel id) s).
+Theorem dskip_prog : forall fuel dep id s, (length s + 1 < fuel)%nat -> prog s (run_flat (dskip fuel dep id) s).
 Proof.
-  induction fuel as [|f IH]; intros id s Hs; [lia|]. cbn [dec_skip]. top_ifs.
-  - scalar_pg rd_i8_prog.
-  - scalar_pg rd_string_prog.
-  - apply readfull_prog; [lia|]. intros. apply ret_prog0.
-  - apply readfull_prog; [lia|]. intros. apply ret_prog0.
-  - apply readfull_prog; [lia|]. intros. apply ret_prog0.
-  - apply prog_bind; [auto with rb|apply rd_i32_prog|]. intros n r Hr. neg_if.
-    apply readfull_prog0. intros. apply ret_prog0.
-  - apply prog_bind; [auto with rb|apply rd_i32_prog|]. intros n r Hr. neg_if.
-    apply prog0_bind; [auto with rb| |intros; apply ret_prog0].
-    apply rep_prog0 with (L := length r); [auto with rb| |lia|lia]. intros. apply rd_i32_prog.
-  - apply prog_bind; [auto with rb|apply rd_i32_prog|]. intros n r Hr. neg_if.
-    apply prog0_bind; [auto with rb| |intros; apply ret_prog0].
-    apply rep_prog0 with (L := length r); [auto with rb| |lia|lia]. intros. apply rd_i64_prog.
-  - apply prog_bind; [auto with rb|apply rd_u8_prog|]. intros et r Hr.
-    apply prog0_bind; [auto with rb|apply prog_prog0, rd_i32_prog|]. intros n r' Hr'. neg_if.
-    apply prog0_bind; [auto with rb| |intros; apply ret_prog0].
-    apply rep_prog0 with (L := length r'); [auto with rb| |lia|lia]. intros s' Hs'. apply IH. lia.
-  - apply comp_prog with (L := length s); [auto with rb|auto with rb|apply rd_tag_prog| |lia|lia].
-    intros id' s' Hs'. apply prog_prog0, IH. lia.
-  - exact I.
+  induction fuel as [|f IH]; intros dep id s Hs; [lia|]. cbn [dskip].
+  pg; first [apply IH; lia | apply prog_prog0, IH; lia].
 Qed.
+Theorem dec_skip_prog : forall fuel id s, (length s + 1 < fuel)%nat -> prog s (run_flat (dec_skip fuel id) s).
+Proof. intros. now apply dskip_prog. Qed.
 Lemma dec_struct0_prog fuel id s : (length s + 1 < fuel)%nat -> prog0 s (run_flat (dec_struct0 fuel id) s).
 Proof. intros H. unfold dec_struct0. top_ifs; try exact I. apply prog_prog0, dec_skip_prog, H. Qed.
 
@@ -216,47 +208,30 @@ Proof.
 Qed.
 
 (* ---------- binary -> text ---------- *)
-Theorem dec_text_prog : forall fuel id s, (length s + 1 < fuel)%nat -> prog s (run_flat (dec_text fuel id) s).
+Theorem dtext_prog : forall fuel dep id s, (length s + 1 < fuel)%nat -> prog s (run_flat (dtext fuel dep id) s).
 Proof.
-  induction fuel as [|f IH]; intros id s Hs; [lia|]. cbn [dec_text]. top_ifs.
-  - scalar_pg rd_u8_prog.
-  - scalar_pg rd_string_prog.
-  - scalar_pg rd_i16_prog.
-  - scalar_pg rd_i32_prog.
-  - scalar_pg rd_i64_prog.
-  - apply prog_bind; [auto with rb|apply rd_i32_prog|]. intros n r Hr. neg_if.
-    apply prog0_bind; [auto with rb| |intros; apply ret_prog0].
-    apply rep_prog0 with (L := length r); [auto with rb| |lia|lia]. intros. apply rd_u8_prog.
-  - apply prog_bind; [auto with rb|apply rd_i32_prog|]. intros n r Hr. neg_if.
-    apply prog0_bind; [auto with rb| |intros; apply ret_prog0].
-    apply rep_prog0 with (L := length r); [auto with rb| |lia|lia]. intros. apply rd_i32_prog.
-  - apply prog_bind; [auto with rb|apply rd_i32_prog|]. intros n r Hr. neg_if.
-    apply prog0_bind; [auto with rb| |intros; apply ret_prog0].
-    apply rep_prog0 with (L := length r); [auto with rb| |lia|lia]. intros. apply rd_i64_prog.
-  - apply prog_bind; [auto with rb|apply rd_u8_prog|]. intros et r Hr.
-    apply prog0_bind; [auto with rb|apply prog_prog0, rd_i32_prog|]. intros n r' Hr'. neg_if.
-    apply prog0_bind; [auto with rb| |intros; apply ret_prog0].
-    apply rep_prog0 with (L := length r'); [auto with rb| |lia|lia]. intros s' Hs'. apply IH. lia.
-  - apply comp_prog with (L := length s); [auto with rb|auto with rb|apply rd_tag_prog| |lia|lia].
-    intros id' s' Hs'. apply prog_prog0, IH. lia.
-  - exact I.
+  induction fuel as [|f IH]; intros dep id s Hs; [lia|]. cbn [dtext].
+  pg; first [apply IH; lia | apply prog_prog0, IH; lia].
 Qed.
+Theorem dec_text_prog : forall fuel id s, (length s + 1 < fuel)%nat -> prog s (run_flat (dec_text fuel id) s).
+Proof. intros. now apply dtext_prog. Qed.
 Lemma dec_snbt_prog fuel id s : (length s + 1 < fuel)%nat -> prog0 s (run_flat (dec_snbt fuel id) s).
 Proof. intros H. unfold dec_snbt. top_ifs; try exact I. apply prog_prog0, dec_text_prog, H. Qed.
 
 (* ---------- dynbt: a TAG_End value consumes nothing, which is why a counted list of them must be refused *)
-Theorem dec_dyn_prog : forall fuel id s, (length s + 1 < fuel)%nat ->
-  prog0 s (run_flat (dec_dyn fuel id) s) /\ (id <> idEnd -> prog s (run_flat (dec_dyn fuel id) s)).
+Theorem ddyn_prog : forall fuel dep id s, (length s + 1 < fuel)%nat ->
+  prog0 s (run_flat (ddyn fuel dep id) s) /\ (id <> idEnd -> prog s (run_flat (ddyn fuel dep id) s)).
 Proof.
-  induction fuel as [|f IH]; intros id s Hs; [lia|].
-  assert (id <> idEnd -> prog s (run_flat (dec_dyn (S f) id) s)) as P.
-  { intros Hid. cbn [dec_dyn]. destruct (N.eqb_spec id idEnd) as [E|_]; [contradiction|]. top_ifs.
+  induction fuel as [|f IH]; intros dep id s Hs; [lia|].
+  assert (id <> idEnd -> prog s (run_flat (ddyn (S f) dep id) s)) as P.
+  { intros Hid. cbn [ddyn]. destruct (N.eqb_spec id idEnd) as [E|_]; [contradiction|]. top_ifs.
     - scalar_pg rd_u8_prog.
     - apply readfull_prog; [lia|]. intros. apply ret_prog0.
     - apply readfull_prog; [lia|]. intros. apply ret_prog0.
     - apply readfull_prog; [lia|]. intros. apply ret_prog0.
     - apply readfull_prog; [lia|]. intros h r Hr. cbv zeta. neg_if. apply readfull_prog0. intros. apply ret_prog0.
     - apply readfull_prog; [lia|]. intros h r Hr. cbv zeta. neg_if. apply readfull_prog0. intros. apply ret_prog0.
+    - exact I.
     - apply prog_bind; [auto with rb|apply rd_u8_prog|]. intros et r Hr.
       apply prog0_bind; [auto with rb|apply prog_prog0, rd_i32_prog|]. intros n r' Hr'. neg_if.
       destruct (N.eqb_spec et idEnd) as [E|E]; cbn [andb].
@@ -266,6 +241,7 @@ Proof.
       + apply prog0_bind; [auto with rb| |intros; apply ret_prog0].
         apply rep_prog0 with (L := length r'); [auto with rb| |lia|lia]. intros s' Hs'.
         apply IH; [lia|exact E].
+    - exact I.
     - apply prog_bind; [auto with rb| |intros; apply ret_prog0].
       apply comp_prog with (L := length s); [auto with rb|auto with rb|apply rd_tag_dyn_prog| |lia|lia].
       intros id' s' Hs'. apply IH. lia.
@@ -275,6 +251,9 @@ Proof.
   split; [|exact P].
   destruct (N.eq_dec id idEnd) as [->|Hid]; [cbn; lia|]. apply prog_prog0, P, Hid.
 Qed.
+Theorem dec_dyn_prog : forall fuel id s, (length s + 1 < fuel)%nat ->
+  prog0 s (run_flat (dec_dyn fuel id) s) /\ (id <> idEnd -> prog s (run_flat (dec_dyn fuel id) s)).
+Proof. intros. now apply ddyn_prog. Qed.
 
 (* ---------- documents ---------- *)
 Lemma decode_hdr_prog f s : prog s (run_flat (decode_hdr f) s).
@@ -309,12 +288,15 @@ Theorem negative_array_len : forall id f h rest, array_id id -> lenN h = 4 -> (s
   run_flat (dec_text (S f) id) (h ++ rest) = FErr eNeg /\
   run_flat (dec_dyn (S f) id) (h ++ rest) = FErr eNeg.
 Proof.
-  intros id f h rest [->|[->| ->]] Hh Hn; repeat split;
+  intros id f h rest [->|[->| ->]] Hh Hn; unfold dec_any, dec_skip, dec_text, dec_dyn; repeat split;
     rewrite ?any_bytearray, ?any_intarray, ?any_longarray, ?skip_bytearray, ?skip_intarray, ?skip_longarray,
       ?text_bytearray, ?text_intarray, ?text_longarray, ?dyn_bytearray, ?dyn_intarray, ?dyn_longarray;
     first [ rewrite run_i32_neg by exact Hh; rewrite ltb_neg by exact Hn; reflexivity
           | rewrite run_ReadFull_app by exact Hh; cbv zeta; rewrite ltb_neg by exact Hn; reflexivity ].
 Qed.
+
+Lemma max_open_pos : (max_open =? 0) = false.
+Proof. reflexivity. Qed.
 
 Theorem negative_list_len : forall f et h rest, lenN h = 4 -> (sx32 (unbe h) < 0)%Z ->
   run_flat (dec_any (S f) idList) (et :: h ++ rest) = FErr eNeg /\
@@ -322,20 +304,9 @@ Theorem negative_list_len : forall f et h rest, lenN h = 4 -> (sx32 (unbe h) < 0
   run_flat (dec_text (S f) idList) (et :: h ++ rest) = FErr eNeg /\
   run_flat (dec_dyn (S f) idList) (et :: h ++ rest) = FErr eNeg.
 Proof.
-  intros f et h rest Hh Hn. repeat split.
-  - change (dec_any (S f) idList) with (et <- rd_u8 ;; n <- rd_i32 ;;
-      if (n <? 0)%Z then Fail eNeg else l <- rep f (Z.to_N n) (dec_any f et) [] ;; Ret (AList l)).
-    rewrite run_flat_bind by auto with rb. rewrite run_rd_u8, run_i32_neg by exact Hh. now rewrite ltb_neg.
-  - change (dec_skip (S f) idList) with (et <- rd_u8 ;; n <- rd_i32 ;;
-      if (n <? 0)%Z then Fail eNeg else _ <- rep f (Z.to_N n) (dec_skip f et) [] ;; Ret tt).
-    rewrite run_flat_bind by auto with rb. rewrite run_rd_u8, run_i32_neg by exact Hh. now rewrite ltb_neg.
-  - change (dec_text (S f) idList) with (et <- rd_u8 ;; n <- rd_i32 ;;
-      if (n <? 0)%Z then Fail eNeg else _ <- rep f (Z.to_N n) (dec_text f et) [] ;; Ret tt).
-    rewrite run_flat_bind by auto with rb. rewrite run_rd_u8, run_i32_neg by exact Hh. now rewrite ltb_neg.
-  - change (dec_dyn (S f) idList) with (t <- rd_u8 ;; n <- rd_i32 ;;
-      if (n <? 0)%Z then Fail eNeg else if (t =? idEnd) && (0 <? n)%Z then Fail eEND
-      else l <- rep f (Z.to_N n) (dec_dyn f t) [] ;; Ret (DList l)).
-    rewrite run_flat_bind by auto with rb. rewrite run_rd_u8, run_i32_neg by exact Hh. now rewrite ltb_neg.
+  intros f et h rest Hh Hn. unfold dec_any, dec_skip, dec_text, dec_dyn.
+  rewrite any_list, skip_list, text_list, dyn_list, max_open_pos. repeat split;
+    rewrite run_flat_bind by auto with rb; rewrite run_rd_u8, run_i32_neg by exact Hh; now rewrite ltb_neg.
 Qed.
 
 Theorem negative_string_len : forall h rest, lenN h = 2 -> (sx16 (unbe h) < 0)%Z ->
@@ -356,7 +327,7 @@ Theorem unknown_tag : forall id f s, 12 < id ->
 Proof.
   intros id f s H.
   assert (forall k, k <= 12 -> (id =? k) = false) as E by (intros; now apply eqb_gt12).
-  cbn [dec_any dec_skip dec_text dec_dyn].
+  unfold dec_any, dec_skip, dec_text, dec_dyn. cbn [dany dskip dtext ddyn].
   rewrite !(E idEnd), !(E idByte), !(E idShort), !(E idInt), !(E idLong), !(E idFloat), !(E idDouble),
     !(E idByteArray), !(E idString), !(E idList), !(E idCompound), !(E idIntArray), !(E idLongArray)
     by (vm_compute; discriminate).
@@ -367,11 +338,18 @@ Qed.
 Theorem dyn_end_list : forall f h rest, lenN h = 4 -> (0 < sx32 (unbe h))%Z ->
   run_flat (dec_dyn (S f) idList) (idEnd :: h ++ rest) = FErr eEND.
 Proof.
-  intros f h rest Hh Hn.
-  change (dec_dyn (S f) idList) with (t <- rd_u8 ;; n <- rd_i32 ;;
-      if (n <? 0)%Z then Fail eNeg else if (t =? idEnd) && (0 <? n)%Z then Fail eEND
-      else l <- rep f (Z.to_N n) (dec_dyn f t) [] ;; Ret (DList l)).
+  intros f h rest Hh Hn. unfold dec_dyn. rewrite dyn_list, max_open_pos.
   rewrite run_flat_bind by auto with rb. rewrite run_rd_u8, run_i32_neg by exact Hh.
   destruct (Z.ltb_spec (sx32 (unbe h)) 0); [lia|]. rewrite N.eqb_refl.
   destruct (Z.ltb_spec 0 (sx32 (unbe h))); [reflexivity|lia].
+Qed.
+
+(* the depth budget: a list or compound met when no container may be opened any more is an error (not a
+   stack overflow, and not the model's NoFuel) in every walker *)
+Theorem depth_exhausted : forall f id s, id = idList \/ id = idCompound ->
+  run_flat (dany (S f) 0 id) s = FErr eDepth /\ run_flat (dskip (S f) 0 id) s = FErr eDepth /\
+  run_flat (dtext (S f) 0 id) s = FErr eDepth /\ run_flat (ddyn (S f) 0 id) s = FErr eDepth /\
+  (forall t, t <> GAny -> t <> GMapAny -> id = idList -> run_flat (dty (S f) 0 t id) s = FErr eDepth).
+Proof.
+  intros f id s [->| ->]; repeat split; intros; try discriminate; try (destruct t; try contradiction); reflexivity.
 Qed.
